@@ -169,11 +169,16 @@ func impl(ops []string) []string {
 			}
 			switch w[0] {
 			case "init":
-				if len(w) != 9 {
+				if len(w) != 11 {
 					outs[i] = "bad-op"
 					return
 				}
 				cc := &caseCfg{}
+				if tol, _ := strconv.Atoi(w[7]); tol != timeTol {
+					outs[i] = "bad-op"
+					return
+				}
+				cc.prevOff, _ = strconv.ParseInt(w[8], 10, 64)
 				cc.feeOn = w[1] == "1"
 				cc.maxBlockCost, _ = strconv.Atoi(w[2])
 				cc.maxByteSize, _ = strconv.ParseInt(w[3], 10, 64)
@@ -186,8 +191,8 @@ func impl(ops []string) []string {
 					outs[i] = "bad-op"
 					return
 				}
-				if w[7] != "-" {
-					for _, a := range strings.Split(w[7], ",") {
+				if w[9] != "-" {
+					for _, a := range strings.Split(w[9], ",") {
 						f := strings.Split(a, ":")
 						id, _ := strconv.Atoi(f[0])
 						b, _ := strconv.ParseUint(f[1], 10, 64)
@@ -205,8 +210,8 @@ func impl(ops []string) []string {
 				}
 				builtinScripts = map[string]scriptInput{}
 				kinds := map[string]bool{}
-				if w[8] != "-" {
-					for _, b := range strings.Split(w[8], "/") {
+				if w[10] != "-" {
+					for _, b := range strings.Split(w[10], "/") {
 						f := strings.Split(b, "~")
 						out, _ := strconv.Atoi(f[3])
 						builtinScripts[kindFn[f[0]]] = scriptOf(f[2], out, 0)
@@ -254,15 +259,12 @@ func impl(ops []string) []string {
 					outs[i] = fmt.Sprintf("harness-error bytes %d != %d", len(data), bytes)
 					return
 				}
-				age := int64(0)
-				if w[11] == "1" {
-					age = transaction.TXN_TIME_TOLERANCE + 1000
-				}
+				dateOff, _ := strconv.ParseInt(w[11], 10, 64)
 				if sender < idMiner || sender >= nIDs || wallets[sender] == nil {
 					outs[i] = "bad-op"
 					return
 				}
-				_, adm := x.w.addTxn(poolTxn{typ: typ, sender: sender, to: idOf(to), value: value, fee: fee, nonce: nonce, fn: kv["fn"], data: data, age: age}, int64(1000000-len(x.w.pool)))
+				_, adm := x.w.addTxn(poolTxn{typ: typ, sender: sender, to: idOf(to), value: value, fee: fee, nonce: nonce, fn: kv["fn"], data: data, dateOff: dateOff}, int64(1000000-len(x.w.pool)))
 				stats[strings.Fields(adm)[0]]++
 				if strings.HasPrefix(adm, "store-error") || adm == "sign-error" {
 					outs[i] = "harness-error " + adm
@@ -301,7 +303,14 @@ func impl(ops []string) []string {
 					}
 					return
 				}
-				outs[i] = "gen-ok " + x.showTxns(b) + " " + x.showState(b.ClientState)
+				// the block's date: raised to the previous block's date when that is ahead of this node's clock
+				d := int64(0)
+				if b.CreationDate == x.w.gen.prev.CreationDate {
+					d = x.w.cc.prevOff
+				} else if b.CreationDate < x.w.now || b.CreationDate > x.w.now+30 {
+					d = int64(b.CreationDate) - int64(x.w.now)
+				}
+				outs[i] = fmt.Sprintf("gen-ok d=%d ", d) + x.showTxns(b) + " " + x.showState(b.ClientState)
 			case "verify":
 				if len(w) != 1 || x == nil {
 					outs[i] = "bad-op"
@@ -365,7 +374,7 @@ type gtxn struct {
 	cost           string
 	exempt         bool
 	out            int
-	late           bool
+	created        int64
 	bname          string
 	res            string
 	fn             string
@@ -377,14 +386,11 @@ type gtxn struct {
 
 func (t *gtxn) line() string {
 	bytes := len(buildData(t.typ, t.fn, t.res, t.out, t.pad))
-	ex, late := "0", "0"
+	ex := "0"
 	if t.exempt {
 		ex = "1"
 	}
-	if t.late {
-		late = "1"
-	}
-	return fmt.Sprintf("txn %s %d %d %d %d %d %s %s %d %d %s %s %s @fn=%s @pad=%d", t.typ, t.sender, t.to, t.value, t.fee, t.nonce, t.cost, ex, bytes, t.out, late, t.bname, t.res, t.fn, t.pad)
+	return fmt.Sprintf("txn %s %d %d %d %d %d %s %s %d %d %d %s %s @fn=%s @pad=%d", t.typ, t.sender, t.to, t.value, t.fee, t.nonce, t.cost, ex, bytes, t.out, t.created, t.bname, t.res, t.fn, t.pad)
 }
 
 func feeOf(cost int64) uint64 {
@@ -489,7 +495,15 @@ func gen(r *rand.Rand, thorough bool, i int) []string {
 	if feeOn {
 		fee01 = "1"
 	}
-	ops := []string{fmt.Sprintf("init %s %d %d %d %d %d %s %s @costs=%s", fee01, maxCost, maxBytes, minSize, minFee, idMiner, a, b, strings.Join(ctab, ","))}
+	// creation date of the previous block relative to this node's clock: equal, ahead (a miner with a fast clock
+	// produced it: the new block's date is raised to it) or behind
+	prevOff := []int64{0, 0, -5, -300, 1, 120, 300, 300}[r.Intn(8)]
+	blockD := prevOff
+	if blockD < 0 {
+		blockD = 0
+	}
+	ops := []string{fmt.Sprintf("init %s %d %d %d %d %d %d %d %s %s @costs=%s", fee01, maxCost, maxBytes, minSize, minFee, idMiner, timeTol, prevOff, a, b, strings.Join(ctab, ","))}
+	usedDate := map[[3]int64]bool{}
 
 	n := 3 + r.Intn(22)
 	if thorough {
@@ -619,7 +633,21 @@ func gen(r *rand.Rand, thorough bool, i int) []string {
 			t.nonce = cur[t.sender] + 1
 			cur[t.sender]++
 		}
-		t.late = r.Intn(40) == 0
+		// creation date: normally a few seconds old; sometimes around the edges of the BLOCK's tolerance window
+		// (exact to the second when the block date is fixed by the previous block, with a margin when it is this node's clock)
+		t.created = -int64(k + 1)
+		if r.Intn(7) == 0 {
+			if prevOff > 0 {
+				t.created = []int64{blockD - timeTol - 1, blockD - timeTol, blockD - timeTol + 1, blockD + timeTol - 1, blockD + timeTol, blockD + timeTol + 1,
+					-timeTol, -timeTol + 1, timeTol, timeTol + 1, blockD - timeTol - 150, blockD + timeTol - 200}[r.Intn(12)]
+			} else {
+				t.created = []int64{-timeTol - 40, -timeTol + 40, timeTol - 40, timeTol + 40, -timeTol - 1000, timeTol + 1000}[r.Intn(6)]
+			}
+		}
+		for usedDate[[3]int64{int64(t.sender), t.nonce, t.created}] {
+			t.created -= 2
+		}
+		usedDate[[3]int64{int64(t.sender), t.nonce, t.created}] = true
 		txns = append(txns, t)
 	}
 	// pool order: by fee (what the real score gives when fees are on), by submission order, or shuffled
@@ -679,6 +707,10 @@ func oracle(ops, outs []string) *corr.Violation {
 		biCosts   map[string]int64
 		block     []ent
 		blkMaxInt bool
+		blkLate   string
+		pending   *corr.Violation
+		tol       int64
+		prevOff   int64
 		haveBlock bool
 		genIdx    int
 		known     *corr.Violation
@@ -693,22 +725,24 @@ func oracle(ops, outs []string) *corr.Violation {
 		}
 		switch w[0] {
 		case "init":
-			if len(w) != 9 || outs[i] != "ok" {
+			if len(w) != 11 || outs[i] != "ok" {
 				continue
 			}
+			tol, _ = strconv.ParseInt(w[7], 10, 64)
+			prevOff, _ = strconv.ParseInt(w[8], 10, 64)
 			initNonce = map[int]int64{}
 			pool, biCosts, haveBlock = nil, map[string]int64{}, false
 			maxCost, _ = strconv.ParseInt(w[2], 10, 64)
-			if w[7] != "-" {
-				for _, a := range strings.Split(w[7], ",") {
+			if w[9] != "-" {
+				for _, a := range strings.Split(w[9], ",") {
 					f := strings.Split(a, ":")
 					id, _ := strconv.Atoi(f[0])
 					n, _ := strconv.ParseInt(f[2], 10, 64)
 					initNonce[id] = n
 				}
 			}
-			if w[8] != "-" {
-				for _, b := range strings.Split(w[8], "/") {
+			if w[10] != "-" {
+				for _, b := range strings.Split(w[10], "/") {
 					f := strings.Split(b, "~")
 					c, _ := strconv.ParseInt(f[1], 10, 64)
 					biCosts[f[0]] = c
@@ -728,11 +762,41 @@ func oracle(ops, outs []string) *corr.Violation {
 				continue
 			}
 			var ok bool
-			block, ok = parseT(f[1])
+			if len(f) < 3 {
+				return mk("unparsable-answer", outs[i], i)
+			}
+			block, ok = parseT(f[2])
 			if !ok {
 				return mk("unparsable-answer", outs[i], i)
 			}
 			haveBlock, genIdx = true, i
+			// (0) the block's date is max(clock, previous block's date); every pool transaction in it is within the time
+			// tolerance of THAT date (the verifier measures against it). When the date is this node's clock it is known up to
+			// the duration of the case, hence the slack.
+			blockD, slack := prevOff, int64(0)
+			if prevOff <= 0 {
+				blockD, slack = 0, 25
+			}
+			if f[1] != fmt.Sprintf("d=%d", blockD) {
+				return mk("block-date-not-max-of-clock-and-previous-block", f[1]+fmt.Sprintf(", expected d=%d", blockD), i)
+			}
+			blkLate = ""
+			for _, e := range block {
+				if strings.HasPrefix(e.key, "b") {
+					continue
+				}
+				k, _ := strconv.Atoi(e.key)
+				if k >= len(pool) {
+					return mk("unknown-transaction-in-block", "entry "+e.key, i)
+				}
+				c, _ := strconv.ParseInt(pool[k][11], 10, 64)
+				if c < blockD-tol || c > blockD+slack+tol {
+					blkLate = fmt.Sprintf("transaction %s created at %d, block dated %d, tolerance %d", e.key, c, blockD, tol)
+				}
+			}
+			if blkLate != "" {
+				pending = mk("block-includes-transaction-outside-time-tolerance", blkLate, i)
+			}
 			// (1) no transaction twice
 			seen := map[string]bool{}
 			for _, e := range block {
@@ -829,12 +893,15 @@ func oracle(ops, outs []string) *corr.Violation {
 			if len(f) > 0 && f[0] == "ok" {
 				// same final state as the generator reported
 				g := strings.Fields(outs[genIdx])
-				if len(g) == 4 && len(f) == 3 && (g[2] != f[1] || g[3] != f[2]) {
+				if len(g) == 5 && len(f) == 3 && (g[3] != f[1] || g[4] != f[2]) {
 					return mk("verifier-state-differs", outs[genIdx]+" vs "+outs[i], i)
 				}
 				continue
 			}
 			// the honest block failed honest verification
+			if outs[i] == "fail txn" && blkLate != "" {
+				return mk("honest-block-fails-verification-time-tolerance", "the generator included a transaction that is outside the time tolerance of the block's creation date; the verifier, which measures against that date, rejects the block: "+blkLate, i)
+			}
 			dupName := false
 			cnt := map[string]int{}
 			for _, e := range block {
@@ -872,6 +939,9 @@ func oracle(ops, outs []string) *corr.Violation {
 			return mk("honest-block-fails-verification", outs[i]+" for block "+outs[genIdx], i)
 		}
 	}
+	if pending != nil {
+		return pending
+	}
 	return known
 }
 
@@ -897,7 +967,12 @@ func fixedCases() [][]string {
 	costs := "@costs=big:6000,f1:1,f2:10,f4:100"
 	mkCase := func(init string, txns []*gtxn, tail ...string) []string {
 		ops := []string{init}
-		for _, t := range txns {
+		for k, t := range txns {
+			if t.created == 0 {
+				c := *t // dated one second apart
+				c.created = -int64(k + 1)
+				t = &c
+			}
 			ops = append(ops, t.line())
 		}
 		return append(ops, tail...)
@@ -906,37 +981,48 @@ func fixedCases() [][]string {
 	fc := tx("sc", 6, idFaucet, 0, 10000000000, 4, "nosuchfn", "chg", maxInt)
 	fc.out = len(faucetUnknown)
 	late := tx("send", 5, 6, 1, 100000000, 1, "", "", 10)
-	late.late = true
+	late.created = -timeTol - 1000
+	at := func(t *gtxn, created int64) *gtxn { c := *t; c.created = created; return &c }
 	return [][]string{
+		// clock skew: the previous block is dated 300 s ahead of this node's clock, the new block is dated 300 and the window
+		// is [-300, 900] — not [-600, 600]. Both edges to the second; -450 is fresh by the clock but stale for the block,
+		// 700 is in the future by the clock but fine for the block
+		mkCase("init 0 10000 1638400 1 0 3 600 300 "+richAccts+" - "+costs, []*gtxn{
+			at(tx("send", 5, 6, 5, 0, 1, "", "", 10), -301), at(tx("send", 5, 6, 6, 0, 1, "", "", 10), -300), at(tx("send", 5, 6, 5, 0, 2, "", "", 10), -299),
+			at(tx("send", 7, 6, 5, 0, 1, "", "", 10), 901), at(tx("send", 7, 6, 6, 0, 1, "", "", 10), 900), at(tx("send", 7, 6, 5, 0, 2, "", "", 10), 899),
+			at(tx("send", 6, 5, 5, 0, 4, "", "", 10), -450), at(tx("send", 6, 5, 6, 0, 4, "", "", 10), 700), at(tx("send", 6, 5, 6, 0, 5, "", "", 10), -600)}, "gen 1", "verify"),
+		// the previous block is behind the clock: the block is dated by the clock
+		mkCase("init 0 10000 1638400 1 0 3 600 -300 "+richAccts+" - "+costs, []*gtxn{
+			at(tx("send", 5, 6, 5, 0, 1, "", "", 10), -640), at(tx("send", 5, 6, 6, 0, 1, "", "", 10), -560), at(tx("send", 7, 6, 5, 0, 1, "", "", 10), 640), at(tx("send", 7, 6, 6, 0, 1, "", "", 10), 560)}, "gen 1", "verify"),
 		// the probe: out-of-order nonces of one sender (3 is promoted once 2 is in), fee transaction last
-		mkCase("init 1 10000 1638400 1 0 3 "+richAccts+" p~100~ok~3 "+costs, []*gtxn{
+		mkCase("init 1 10000 1638400 1 0 3 600 0 "+richAccts+" p~100~ok~3 "+costs, []*gtxn{
 			tx("send", 5, 6, 5, 100000000, 1, "", "", 10), tx("send", 5, 6, 5, 100000000, 3, "", "", 10), tx("sc", 5, idScript, 0, 100000000, 2, "f2", "ok", 10)}, "gen 1", "verify"),
 		// FINDING: a client's pool transaction that merely carries the NAME payFees; the block fails verification
-		mkCase("init 1 10000 1638400 1 0 3 "+richAccts+" p~100~ok~3 "+costs, []*gtxn{
+		mkCase("init 1 10000 1638400 1 0 3 600 0 "+richAccts+" p~100~ok~3 "+costs, []*gtxn{
 			tx("send", 5, 6, 5, 100000000, 1, "", "", 10), tx("sc", 6, idScript, 0, 10000000000, 4, "payFees", "ok", 100)}, "gen 1", "verify"),
 		// FINDING: an unknown function has the estimate MaxInt; added to a non-zero running cost it wraps negative and the
 		// cost limit is off for the rest of the block (5 x 6000 against a limit of 10000); the verifier wraps the same way
-		mkCase("init 1 10000 1638400 1 0 3 "+richAccts+" p~100~ok~3 "+costs, []*gtxn{unknown,
+		mkCase("init 1 10000 1638400 1 0 3 600 0 "+richAccts+" p~100~ok~3 "+costs, []*gtxn{unknown,
 			tx("sc", 6, idScript, 0, 10000000000, 5, "big", "ok", 6000), tx("sc", 6, idScript, 0, 10000000000, 6, "big", "ok", 6000),
 			tx("sc", 6, idScript, 0, 10000000000, 7, "big", "ok", 6000), tx("sc", 6, idScript, 0, 10000000000, 8, "big", "ok", 6000),
 			tx("sc", 6, idScript, 0, 10000000000, 9, "big", "ok", 6000)}, "gen 1", "verify"),
 		// the same with the REAL faucet contract as the target of the unknown method
-		mkCase("init 1 10000 1638400 1 0 3 "+richAccts+" p~100~ok~3 "+costs, []*gtxn{fc,
+		mkCase("init 1 10000 1638400 1 0 3 600 0 "+richAccts+" p~100~ok~3 "+costs, []*gtxn{fc,
 			tx("sc", 6, idScript, 0, 10000000000, 5, "big", "ok", 6000), tx("sc", 6, idScript, 0, 10000000000, 6, "big", "ok", 6000)}, "gen 1", "verify"),
 		// without a running cost (no built-in transaction) the MaxInt estimate is simply over the limit: skipped
-		mkCase("init 0 10000 1638400 1 0 3 "+richAccts+" - "+costs, []*gtxn{unknown,
+		mkCase("init 0 10000 1638400 1 0 3 600 0 "+richAccts+" - "+costs, []*gtxn{unknown,
 			tx("sc", 6, idScript, 0, 0, 4, "big", "ok", 6000), tx("sc", 6, idScript, 0, 0, 5, "big", "ok", 6000)}, "gen 1", "verify"),
 		// cost limit: 100 (built-in) + 10 + 10 … against 125
-		mkCase("init 1 125 1638400 1 0 3 "+richAccts+" p~100~ok~3 "+costs, []*gtxn{
+		mkCase("init 1 125 1638400 1 0 3 600 0 "+richAccts+" p~100~ok~3 "+costs, []*gtxn{
 			tx("send", 5, 6, 5, 100000000, 1, "", "", 10), tx("send", 5, 6, 5, 100000000, 2, "", "", 10), tx("send", 5, 6, 5, 100000000, 3, "", "", 10),
 			tx("sc", 7, idScript, 0, 100000000, 1, "f1", "ok", 1)}, "gen 1", "verify"),
 		// InsufficientTxns is tested only inside the loop over built-in transactions
-		mkCase("init 1 10000 1638400 3 0 3 "+richAccts+" p~100~ok~3 "+costs, []*gtxn{tx("send", 5, 6, 5, 100000000, 1, "", "", 10)}, "gen 0", "verify"),
-		mkCase("init 0 10000 1638400 3 0 3 "+richAccts+" - "+costs, []*gtxn{tx("send", 5, 6, 5, 0, 1, "", "", 10)}, "gen 0", "verify"),
+		mkCase("init 1 10000 1638400 3 0 3 600 0 "+richAccts+" p~100~ok~3 "+costs, []*gtxn{tx("send", 5, 6, 5, 100000000, 1, "", "", 10)}, "gen 0", "verify"),
+		mkCase("init 0 10000 1638400 3 0 3 600 0 "+richAccts+" - "+costs, []*gtxn{tx("send", 5, 6, 5, 0, 1, "", "", 10)}, "gen 0", "verify"),
 		// a value above the token supply aborts the iteration
-		mkCase("init 0 10000 1638400 1 0 3 "+richAccts+" - "+costs, []*gtxn{tx("send", 5, 6, 5, 0, 1, "", "", 10), tx("send", 7, 6, 4000000000000000001, 0, 1, "", "", 10)}, "gen 1", "verify"),
+		mkCase("init 0 10000 1638400 1 0 3 600 0 "+richAccts+" - "+costs, []*gtxn{tx("send", 5, 6, 5, 0, 1, "", "", 10), tx("send", 7, 6, 4000000000000000001, 0, 1, "", "", 10)}, "gen 1", "verify"),
 		// stale transaction, duplicate nonce (higher fee first), failing built-in transaction, the miner's own pool transaction
-		mkCase("init 1 10000 1638400 1 0 3 "+richAccts+" p~100~int~0/c~20~chg~5 "+costs, []*gtxn{late,
+		mkCase("init 1 10000 1638400 1 0 3 600 0 "+richAccts+" p~100~int~0/c~20~chg~5 "+costs, []*gtxn{late,
 			tx("send", 7, 6, 5, 300000000, 1, "", "", 10), tx("send", 7, 5, 5, 100000000, 1, "", "", 10), tx("send", 3, 5, 7, 100000000, 1, "", "", 10)}, "gen 1", "verify"),
 	}
 }
@@ -957,7 +1043,7 @@ func main() {
 			for _, o := range outs {
 				if strings.HasPrefix(o, "gen-ok") {
 					f := strings.Fields(o)
-					if len(f) > 1 && strings.Count(f[1], ",") >= 2 {
+					if len(f) > 2 && strings.Count(f[2], ",") >= 2 {
 						return true
 					}
 				}
